@@ -149,6 +149,20 @@ def build_traces(path, tier, seed):
         add({"kind": "object", "dt": enc(dt), "xi": enc(xi), "a": enc_seq(a), "periods": enc_seq(periods), "raised": False, "q": q,
              "sd": enc_seq(got["s_d"]), "sv": enc_seq(got["s_v"]), "sa": enc_seq(got["s_a"])},
             {"kind": "object", "n": n, "dt": dt, "xi": xi, "min_dt_ratio": q, "T_over_dt": [p / dt for p in periods], "shape": shape})
+    # odd refinement factors on records of odd length whose response is still growing when the record stops (the peak lies on
+    # the held tail / the last sub-steps of the refined record)
+    for j, (ratio_, q_) in enumerate([(8.0, 4), (9.0, 4), (7.0, 8), (4.5, 8), (3.1, 8), (8.0, 8)]):
+        n = [41, 63, 25, 101, 33, 75][j]
+        dt = [0.01, 0.02, 0.005][j % 3]
+        t_ = np.arange(n)
+        a = np.sin(2 * np.pi * t_ / ratio_ + 0.3) * (1.0 + 0.01 * t_)
+        periods = [ratio_ * dt, 3.7 * ratio_ * dt]
+        xi = [0.0, 0.02, 0.05][j % 3]
+        o = eqsig.AccSignal(a, dt, response_times=np.array(periods))
+        o.gen_response_spectrum(xi=xi, min_dt_ratio=q_)
+        add({"kind": "object", "dt": enc(dt), "xi": enc(xi), "a": enc_seq(a), "periods": enc_seq(periods), "raised": False, "q": q_,
+             "sd": enc_seq(o.s_d), "sv": enc_seq(o.s_v), "sa": enc_seq(o.s_a)},
+            {"kind": "object", "n": n, "dt": dt, "xi": xi, "min_dt_ratio": q_, "T_over_dt": [p / dt for p in periods], "shape": "resonant build-up, odd length (deterministic)"})
     # the two inputs named in known_findings.json (C03-input-energy-negative) are always exercised
     for (n, a0, a1, ratio, xi, dt) in [(10, 0.9, 0.3, 1.06, 0.05, 0.01), (14, 0.8, 0.2, 1.05, 0.3, 0.01), (205, 0.967, 0.678, 0.35, 0.554, 0.005)]:
         a = np.linspace(a0, a1, n)
